@@ -260,6 +260,7 @@ func cmdCheck(args []string) int {
 	fs := flag.NewFlagSet("check", flag.ExitOnError)
 	tier := fs.String("tier", os.Getenv("VERIF_TIER"), "quick|thorough")
 	only := fs.String("only", "", "run only this harness function")
+	with := fs.String("with", "", "run only the entries that set this parameter (development aid)")
 	trace := fs.Bool("trace", false, "trace engine panics")
 	workers := fs.Int("workers", 0, "worker count")
 	if len(args) < 1 {
@@ -348,6 +349,9 @@ func cmdCheck(args []string) int {
 		}
 		if params == nil {
 			continue // harness entry not part of this tier
+		}
+		if _, has := params[*with]; *with != "" && !has {
+			continue
 		}
 		interp.Params = map[string]int{}
 		for k, v := range params {
